@@ -37,12 +37,14 @@ UNIT = {
         {'file': P + 'parsing.rs', 'item': "impl AnnotatedLexer<'_> :: fn get_any", 'wrap': "impl AnnotatedLexer<'_>", 'fn': 'get_any', 'attrs': 'drop', 'ret': 'r',
          'rewrites': [('lit', 'format!("{} {}", self.raw_token.raw_text(), item.raw_text())',
                        'verif_format_pair(self.raw_token.raw_text(), item.raw_text())', 1)],
-         'ensures': [('range', 'match r { Ok(t) => accumulated(old(self).raw_token, final(self).raw_token, t), Err(_) => final(self).raw_token == old(self).raw_token }')]},
+         'ensures': [('stream', 'took_next(old(self).lexer.remaining(), final(self).lexer.remaining(), r)'),
+                     ('range', 'match r { Ok(t) => accumulated(old(self).raw_token, final(self).raw_token, t), Err(_) => final(self).raw_token == old(self).raw_token }')]},
     ],
     'functions': [], 'obligations': [],
 }
 PROPS = {it['fn']: ['C09'] for it in UNIT['items'] if 'fn' in it}
-TEXTS = {('get_any', 'range'): 'on Ok(t): the first token handed out becomes the accumulated raw token, every later token keeps its start (and file) and moves its end '
+TEXTS = {('get_any', 'stream'): 'hands out exactly the next item of the token stream (UnexpectedEOF at its end) and consumes exactly that item',
+         ('get_any', 'range'): 'on Ok(t): the first token handed out becomes the accumulated raw token, every later token keeps its start (and file) and moves its end '
                               'to the end of t - so an instruction\'s range runs from its first to its last token; on Err the accumulator is unchanged',
          'post': 'returns exactly what its specification says'}
 mk.make(UNIT, PROPS, TEXTS, search=['getany-search'])
